@@ -290,6 +290,13 @@ M('c02-writer-temp-file-not-compensated', ['C02', 'C14', 'C16'],
   "                json.dumps(cache_json, separators=(',', ':'), sort_keys=True))\n"
   "        os.replace(temp_filename, filename)\n")],
   'the writer creates <name>.tmp, the failure handler removes only <name>')
+M('c02-backup-ticket-from-length', ['C02', 'C09', 'C03'],
+  ['R2.6b', 'R9.7', 'R3.5'], [(BK,
+  "            value = self._next_backup_index\n"
+  "            self._next_backup_index += 1\n",
+  "            value = len(self._backups)\n")],
+  'the slot comes from the length of a list that grows in a later critical '
+  'section: two threads share a slot')
 M('c02-write-outside-try', ['C02', 'C14'], ['R2.1', 'R14.2'], [(FB,
   "            self._new_cache.write(cache_filename)\n"
   "            logger.info('Wrote cache file {:s}'.format(cache_filename))\n"
